@@ -63,94 +63,61 @@ def check(ctx):
 
 
 def create_output(ctx):
+    """R15.1 / R15.3 on the traces of DataHandler._create_output_file (pvs/handler_trace.py): the method is followed against a model
+    file system for six situations (nothing exists; the requested name exists; it and `-1` exist; a stale tmp file exists; a stale
+    tmp file and `-1` exist; no output requested) and every open / close / remove is compared with the protocol."""
+    from ..handler_trace import create_scenarios, trace_create
     repo = ctx.repo
     f = repo.func(RUNNER, "DataHandler._create_output_file")
-    fn = f.node
-    cfg = build_cfg(fn)
-    dom = cfg.dominators(skip_edges=())
-    acqs = []
-    for n in cfg.nodes:
-        if n.kind == "stmt" and n.ast is not None:
-            a = is_acquire(n.ast)
-            if a and a[1] == "h5file":
-                acqs.append((n, a))
-    if len(acqs) < 2:
-        raise AnalysisError("_create_output_file no longer opens the output file and the tmp file")
-    loops = [n for n in cfg.nodes if n.kind in ("while", "for")]
-    targets = [cfg.exit, cfg.raise_exit] + [l.id for l in loops]
-    checked = 0
-    for (nr, (rname, _, rpath)) in acqs:
-        rel = [n.id for n in cfg.nodes if n.kind == "stmt" and n.ast is not None and any(
-            isinstance(c, ast.Call) and norm(c.func) == f"{rname}.close" for c in ast.walk(n.ast))]
-        rm = [n.id for n in cfg.nodes if n.kind == "stmt" and n.ast is not None and rpath and any(
-            isinstance(c, ast.Call) and norm(c.func) in ("os.remove", "os.unlink") and c.args and norm(c.args[0]) == rpath
-            for c in ast.walk(n.ast))]
-        for (ns, (sname, _, _)) in acqs:
-            if ns.id == nr.id or nr.id not in dom.get(ns.id, set()):
-                continue
-            # exception edges out of the later acquisition
-            for h, lab in cfg.succ[ns.id]:
-                if lab != "exc" or cfg.nodes[h].kind != "except":
-                    continue      # only failures the code itself handles (name clashes) are in the model
-                checked += 1
-                wit = None
-                for tg in targets:
-                    p = _path_pruned(cfg, h, tg, rel, rname)
-                    if p is not None:
-                        wit = p
-                        break
-                wit_rm = None
-                if wit is None:
-                    for tg in targets:
-                        p = _path_pruned(cfg, h, tg, rm, rname)
-                        if p is not None:
-                            wit_rm = p
-                            break
-                ok = wit is None and wit_rm is None
-                ctx.ob("R15.1", f"if `{norm(ns.ast)[:60]}` fails, `{rname}` (created a moment ago at the requested path) is closed and removed",
-                       ok, detail={"path_without_release": cfg.describe_path(wit or wit_rm) if (wit or wit_rm) else None,
-                                   "closes": len(rel), "removes": len(rm)},
-                       where=f.fq, construct=f"failure of `{sname} = ...` with `{rname}` open", loc=loc(f, ns.ast),
-                       message=f"when opening `{sname}` fails the handler moves on without closing/removing `{rname}`, which this "
-                               f"attempt already created exclusively",
-                       consequence="with a stale <name>.h5.tmp present: an empty <name>.h5 is created at the requested path, its "
-                                   "handle leaks, and the data goes to <name>-1.h5",
-                       witness={"input": "touch z.h5.tmp; SolverOptions(output_file='z.h5')",
-                                "path": cfg.describe_path(wit or wit_rm) if (wit or wit_rm) else None})
-    # a handler that tests `<resource> is not None` relies on the variable being reset before every attempt
-    for (nr, (rname, _, rpath)) in acqs:
-        tests = [n for n in cfg.nodes if n.kind == "if" and n.ast is not None and norm(n.ast.test) in (f"{rname} is not None", f"{rname} is None")]
-        if not tests:
+    wrong_name, non_excl, leaks, touched = [], [], [], []
+    n_open = 0
+    for sc in create_scenarios():
+        t = trace_create(repo, sc)
+        tag = sc["name"]
+        opens = t.kinds("OPEN")
+        n_open += len(opens)
+        for e in opens:
+            if e.mode != "x":
+                non_excl.append(f"[{tag}] {e.path} is opened with mode {e.mode!r}")
+        if t.outcome[0] != "return":
+            wrong_name.append(f"[{tag}] raises {t.outcome[1]}")
             continue
-        resets = [n.id for n in cfg.nodes if n.kind == "stmt" and isinstance(n.ast, ast.Assign) and isinstance(n.ast.value, ast.Constant)
-                  and n.ast.value.value is None and any(norm(t) == rname or (isinstance(t, ast.Tuple) and rname in [norm(e) for e in t.elts])
-                                                        for t in n.ast.targets)]
-        bad = None
-        for l in loops:
-            # from the loop head (start of an attempt) to the acquisition without passing a reset
-            p = cfg.path(l.id, nr.id, skip=resets, skip_edges=("exc",))
-            if p is not None and any(lab in ("true", "iter") for _, lab in p[1:2]):
-                bad = p
-        ctx.ob("R15.1", f"`{rname}` is reset to None at the start of every attempt (the cleanup guard `{rname} is not None` depends on it)",
-               bad is None and bool(resets), detail={"resets": len(resets), "path_without_reset": cfg.describe_path(bad) if bad else None},
-               where=f.fq, construct=f"reset of `{rname}` per attempt", loc=loc(f, nr.ast),
-               message=f"`{rname}` keeps its value from the previous attempt: when a later attempt fails already at `{norm(nr.ast)[:50]}`, "
-                       f"the cleanup closes the stale handle and removes the file at the *new* path",
-               consequence="with name clashes on two consecutive names (stale <name>.h5.tmp and an existing <name>-1.h5) the user's existing "
-                           "<name>-1.h5 is deleted",
-               witness={"input": "touch z.h5.tmp; existing z-1.h5; SolverOptions(output_file='z.h5')"})
-    if not checked:
-        # separate try statements: each later acquisition must still have an exception edge handled
-        ctx.ob("R15.1", "later acquisitions have no exception edge while an earlier file is open", True, nontrivial=False,
-               where=f.fq, construct="acquisition order")
-    # serial-number retry
-    hs = [h for h in ast.walk(fn) if isinstance(h, ast.ExceptHandler)]
-    ok = bool(hs) and all(any(isinstance(x, ast.Continue) for x in ast.walk(h)) and
-                          any(isinstance(x, (ast.Assign, ast.AugAssign)) and "serial_number" in norm(x) for x in ast.walk(h))
-                          for h in hs)
-    ctx.ob("R15.3", "a name clash bumps the serial number and retries", ok, detail=[norm(h)[:120] for h in hs], where=f.fq,
-           construct="serial-number retry", loc=loc(f, fn), message="the FileExistsError handler does not increment the serial and retry",
+        v = t.outcome[1]
+        got = (v[1], v[3]) if isinstance(v, (tuple, list)) and len(v) == 4 else None
+        if got != sc["want"]:
+            wrong_name.append(f"[{tag}] returns the paths {got}, expected {sc['want']}")
+        # whatever this call created and does not return must be closed and removed again; what existed before is never touched
+        created = [e.path for e in opens if e.ok]
+        closed = [e.path for e in t.kinds("CLOSE")]
+        removed = [e.path for e in t.kinds("REMOVE")]
+        for p_ in created:
+            if got is not None and p_ in got:
+                continue
+            if p_ not in closed or p_ not in removed:
+                leaks.append(f"[{tag}] {p_} was created by this call and is {'not closed' if p_ not in closed else 'not removed'} when the attempt is abandoned")
+        for p_ in removed:
+            if p_ in t.preexisting:
+                touched.append(f"[{tag}] {p_} existed before the run and is removed")
+    if n_open < 10:
+        raise AnalysisError(f"_create_output_file opens only {n_open} files over all scenarios")
+    ctx.ob("R15.1", "if opening the tmp file fails, the output file created a moment ago at the requested path is closed and removed", not leaks,
+           detail=leaks[:3], where=f.fq, construct="failure of the tmp file with the output file open", loc=loc(f, f.node),
+           message=f"{leaks[:1]}",
+           consequence="with a stale <name>.h5.tmp present: an empty <name>.h5 is created at the requested path, its "
+                       "handle leaks, and the data goes to <name>-1.h5",
+           witness={"input": "touch z.h5.tmp; SolverOptions(output_file='z.h5')"})
+    ctx.ob("R15.1", "a file that existed before the run is never removed by the clean-up of a failed attempt", not touched, detail=touched[:3],
+           where=f.fq, construct="reset of the file handle per attempt", loc=loc(f, f.node), message=f"{touched[:1]}",
+           consequence="with name clashes on two consecutive names (stale <name>.h5.tmp and an existing <name>-1.h5) the user's existing "
+                       "<name>-1.h5 is deleted",
+           witness={"input": "touch z.h5.tmp; existing z-1.h5; SolverOptions(output_file='z.h5')"})
+    ctx.ob("R15.3", "a name clash bumps the serial number and retries: the files returned are <name>.h5, <name>-1.h5, <name>-2.h5 ... with their .tmp",
+           not wrong_name, detail=wrong_name[:3], where=f.fq, construct="serial-number retry", loc=loc(f, f.node),
+           message=f"the FileExistsError handler does not increment the serial and retry: {wrong_name[:1]}",
            consequence="an existing output file is overwritten or the solver loops forever")
+    ctx.ob("R15.3", "output and tmp file are created exclusively (mode 'x')", not non_excl, detail=non_excl[:3], where=f.fq,
+           construct="open mode of the output files", loc=loc(f, f.node), message=f"{non_excl[:1]}",
+           consequence="an existing file at the requested path is modified")
 
 
 def _path_pruned(cfg, src, dst, skip, rname):
@@ -204,34 +171,35 @@ def context_manager(ctx):
            where="repo", construct="DataHandler construction sites", message="DataHandler is constructed outside a with statement",
            consequence="an exception between construction and close leaves the output and tmp files open")
     ex = dh.methods["__exit__"]
-    cfg = build_cfg(ex.node)
-    closes = [n.id for n in cfg.nodes if n.kind == "stmt" and n.ast is not None and any(
-        isinstance(c, ast.Call) and norm(c.func) == "self.close" for c in ast.walk(n.ast))]
-    p = cfg.path(cfg.entry, cfg.exit, skip=closes)
-    rets = [n for n in own_nodes(ex.node) if isinstance(n, ast.Return) and n.value is not None and
-            not (isinstance(n.value, ast.Constant) and not n.value.value)]
-    ctx.ob("R15.2", "__exit__ reaches self.close() on every normal path and returns a falsy value", p is None and not rets and bool(closes),
-           detail={"path_without_close": cfg.describe_path(p) if p else None, "truthy_returns": [norm(r) for r in rets]},
-           where=ex.fq, construct="__exit__", loc=loc(ex, ex.node),
-           message="__exit__ can return without closing, or swallows the exception",
-           consequence="a failed update leaves files open / the error is silently swallowed and an empty solution returned")
-    # close() releases what __enter__ acquired
     cl = dh.methods["close"]
-    co = dh.methods["_create_output_file"]
-    en = dh.methods["__enter__"]
-    acquired = set()
-    for n in ast.walk(co.node):
-        if isinstance(n, ast.Assign):
-            a = is_acquire(n)
-            if a:
-                acquired.add(a[1] + ":" + a[0])
-    src = norm(cl.node)
-    need = {"self.output_file.close()": "output file closed", "self.tmp_file.close()": "tmp file closed",
-            "os.remove(self.tmp_path)": "tmp file removed", "self.tempdir.cleanup()": "temp dir removed"}
-    missing = [v for k, v in need.items() if k not in src]
+    from ..handler_trace import trace_close
+    bad_exit, missing = [], []
+    for tmp, tempdir, exc in ((True, True, False), (True, False, True), (False, False, False), (False, True, True)):
+        for method in ("close", "__exit__"):
+            if method == "close" and exc:
+                continue
+            t = trace_close(repo, {"tmp": tmp, "tempdir": tempdir, "method": method, "exc": exc})
+            tag = f"{method}: tmp file {'open' if tmp else 'absent'}, temp dir {'in use' if tempdir else 'absent'}" + (", an exception is passing" if exc else "")
+            if t.outcome[0] != "return":
+                (bad_exit if method == "__exit__" else missing).append(f"[{tag}] raises {t.outcome[1]}")
+                continue
+            closed = [e.path for e in t.kinds("CLOSE")]
+            want = ["output file closed" if "OUT" not in closed else None,
+                    "tmp file closed" if tmp and "TMP" not in closed else None,
+                    "tmp file removed" if tmp and "p.h5.tmp" not in [e.path for e in t.kinds("REMOVE")] else None,
+                    "temp dir removed" if tempdir and not t.kinds("CLEANUP") else None]
+            lacking = [w for w in want if w]
+            if lacking:
+                (bad_exit if method == "__exit__" else missing).append(f"[{tag}] does not do: {lacking}")
+            if method == "__exit__" and t.outcome[1]:
+                bad_exit.append(f"[{tag}] returns {t.outcome[1]!r}: the exception is swallowed")
+    ctx.ob("R15.2", "__exit__ reaches self.close() on every normal path and returns a falsy value", not bad_exit,
+           detail=bad_exit[:3], where=ex.fq, construct="__exit__", loc=loc(ex, ex.node),
+           message=f"__exit__ can return without closing, or swallows the exception: {bad_exit[:1]}",
+           consequence="a failed update leaves files open / the error is silently swallowed and an empty solution returned")
     ctx.ob("R15.2", "close() closes both files, removes the tmp file and the temp directory", not missing,
-           detail={"acquired": sorted(acquired), "missing": missing}, where=cl.fq, construct="close()", loc=loc(cl, cl.node),
-           message=f"close() does not do: {missing}", consequence="temporary files remain after a stopped simulation")
+           detail=missing[:3], where=cl.fq, construct="close()", loc=loc(cl, cl.node),
+           message=f"close() does not do: {missing[:2]}", consequence="temporary files remain after a stopped simulation")
     # everything in solve() that touches the files is inside the with
     fs = repo.func(SOLVER, "TDGLSolver.solve")
     pm = parent_map(fs.node)
@@ -478,7 +446,8 @@ def swallowed_errors(ctx):
                 mk = (f.module.name, key[1])
                 budget = sum(1 for k_ in SWALLOWING_OK if (k_[0].split(":")[0], k_[1]) == mk)
                 used[mk] = used.get(mk, 0) + 1
-                ok = key in SWALLOWING_OK or used[mk] <= budget
+                # (twice the budget: one confirmed handler around two calls may be split into one handler per call)
+                ok = key in SWALLOWING_OK or used[mk] <= 2 * budget
                 ctx.ob("R15.9", f"{f.qual}: `except {key[1]}` does not re-raise ({SWALLOWING_OK.get(key, 'NOT in the confirmed table')[:60]})", ok,
                        where=f.fq, construct=f"except {key[1]} in {f.qual} swallows the error", loc=loc(f, h),
                        message=f"{f.qual} catches `{key[1]}` and carries on ({'; '.join(norm(x)[:40] for x in h.body)[:100]}): the failure does not stop the run",
